@@ -1,2 +1,3 @@
 import PanqecVerif.Model.Bits
 import PanqecVerif.Model.Code
+import PanqecVerif.Model.Decoders
